@@ -3,12 +3,12 @@
 package c05
 
 import (
-	"encoding/json"
-	"net/http/httptest"
-	"strings"
 	"context"
+	"encoding/json"
 	"fmt"
 	"log/slog"
+	"net/http/httptest"
+	"strings"
 	"time"
 
 	"go.uber.org/zap"
@@ -176,14 +176,11 @@ func snap(env *gen.Env) snapshot {
 
 // judgeCall compares what one log call did with the model.
 func judgeCall(env *gen.Env, root *gen.Comp, l zapcore.Level, msg string, before snapshot, marshals int) string {
-	leaves, hooks := map[int]bool{}, map[int]int{}
+	leaves, hooks := map[int]int{}, map[int]int{}
 	root.DeliverCall(l, msg, leaves, hooks)
 	for _, lf := range env.Leaves {
 		got := lf.Got(msg)
-		want := 0
-		if leaves[lf.ID] {
-			want = 1
-		}
+		want := leaves[lf.ID]
 		if got != want {
 			return fmt.Sprintf("leaf %s#%d recorded the entry %d times, model says %d", lf.Kind, lf.ID, got, want)
 		}
